@@ -132,9 +132,12 @@ def body_history(threshold, qs, summaries, second_kind, writes, kindf, text):
             version += 1
             store.members["a.ics"] = cal1(version)
         flt = filters[use_b]
-        got = sorted(name for (name, f, etag) in store.iter_with_filter(flt))
+        res = list(store.iter_with_filter(flt))
+        got = sorted(name for (name, f, etag) in res)
         want = sorted(name for (name, f, etag) in store._iter_with_filter_naive(flt))
         ok = ok and got == want
+        # each match comes with ITS file and ITS etag
+        ok = ok and all(f is store.members[name][2] and etag == store.members[name][1] for (name, f, etag) in res)
         warmed = warmed or bool(store.index.available_keys())
     return (ok, "indexed" if warmed else "naive-only")
 
